@@ -30,6 +30,7 @@ type Options struct {
 	Deadline     time.Time
 	StopOnFirst  bool
 	Fixed        map[string]string // translator validation: nondets pinned to concrete values
+	FixedChoices map[string]int    // vxChoose values pinned (symx-level replay)
 	Transcript   string            // directory for solver transcripts (debug)
 	Trace        bool
 }
@@ -129,6 +130,7 @@ func runPath(h *Harness, s *Solver, prefix []int32, opt *Options) (res pathResul
 	ps := newPathState(s, prefix, opt.Params)
 	ps.Twin = opt.Twin
 	ps.Fixed = opt.Fixed
+	ps.FixedChoices = opt.FixedChoices
 	if opt.MaxDecisions > 0 {
 		ps.MaxDecisions = opt.MaxDecisions
 	}
